@@ -15,14 +15,14 @@ TESTNAME=$(basename $DEMO_PATH .rs)
 echo "prop=$PROP demo_path=$DEMO_PATH crate=$CRATE test=$TESTNAME" >> $LOG
 mkdir -p $(dirname $DEMO_PATH); cp $DEMO_FILE $DEMO_PATH
 # without patch
-cargo test --offline -p $CRATE --test $TESTNAME -- --test-threads=1 > $DIR/without.log 2>&1; W=$?
+cargo test --offline -p $CRATE ${CONFIRM_FEATURES:-} --test $TESTNAME -- --test-threads=1 > $DIR/without.log 2>&1; W=$?
 git apply $DIR/patch.diff || { echo "PATCH DOES NOT APPLY" >> $LOG; exit 1; }
-cargo test --offline -p $CRATE --test $TESTNAME -- --test-threads=1 > $DIR/with.log 2>&1; P=$?
+cargo test --offline -p $CRATE ${CONFIRM_FEATURES:-} --test $TESTNAME -- --test-threads=1 > $DIR/with.log 2>&1; P=$?
 echo "demo without patch exit=$W (want 0); with patch exit=$P (want !=0)" >> $LOG
 # existing tests with the patch (demo removed)
 rm -f $DEMO_PATH
 CRATES=$(git diff --name-only | cut -d/ -f1 | sort -u | sed 's/^/-p /' | tr '\n' ' ')
-cargo test --offline --no-fail-fast $CRATES --lib --tests > $DIR/suite.log 2>&1
+cargo test --offline --no-fail-fast $CRATES ${CONFIRM_FEATURES:-} --lib --tests > $DIR/suite.log 2>&1
 FAILS=$(grep -E "^test .* \.\.\. FAILED" $DIR/suite.log | grep -v value_sets_with_fields_from_other_callsites_are_empty | wc -l)
 echo "existing-suite failures with patch (excluding the baseline-failing one): $FAILS" >> $LOG
 git checkout -q -- . && git clean -fdq
